@@ -24,7 +24,8 @@ OPS = ['cf_cycles', 'cf_amp', 'cf_cycles_trough', 'cf_amp_trough', 'shape', 'sha
        'cf2d_amp_list', 'cf_trough_raises', 'shape_trough_raises', 'cf_amp_raises',
        'shape_trough_sub', 'cf_trough_sub', 'cyclepoints_sub', 'mono_sub', 'shape_trough_series',
        'extrema_nsec_a', 'extrema_nsec_b', 'cf_nsec_a', 'cf_nsec_b', 'cf_ncyc5', 'user_refill', 'user_refill',
-       'cf_empty_fk', 'extrema_empty_fk', 'shape_empty_fk', 'edges_nobursts', 'edges_nobursts_t']
+       'cf_empty_fk', 'extrema_empty_fk', 'shape_empty_fk', 'edges_nobursts', 'edges_nobursts_t',
+       'shape_ncyc7_default', 'shape_default', 'obj_default_fit', 'group_default_fit']
 
 class World:
     """the shared argument objects of one session"""
@@ -133,6 +134,14 @@ def _call(w, op):
         if op == 'shape_empty_fk': return q(compute_shape_features, w.sig, w.fs, w.fr, center_extrema='trough', find_extrema_kwargs=w.fek_empty)
         if op == 'edges_nobursts': return q(recompute_edges, w.df_nob, w.th_c)
         if op == 'edges_nobursts_t': return q(recompute_edges, w.df_nob_t, w.th_c)
+        if op == 'shape_ncyc7_default': return q(compute_shape_features, w.sig, w.fs, w.fr, n_cycles=7)             # every option left at its default but the filter length
+        if op == 'shape_default': return q(compute_shape_features, w.sig, w.fs, w.fr)
+        if op == 'obj_default_fit':      # an object constructed with default options (whatever default objects the library keeps must still be pristine)
+            from bycycle import Bycycle
+            bm = q(Bycycle, thresholds=w.th_c); q(bm.fit, w.sig, w.fs, w.fr); return bm.df_features
+        if op == 'group_default_fit':
+            from bycycle import BycycleGroup
+            bg = q(BycycleGroup, thresholds=w.th_c); q(bg.fit, w.sigs2, w.fs, w.fr, n_jobs=1); return list(bg.df_features)
         if op == 'cf3d': return q(compute_features_3d, w.sigs3, w.fs, w.fr, compute_features_kwargs=w.opts, axis=(0, 1), n_jobs=1)
         if op == 'edges': return q(recompute_edges, w.df, w.th_c)
         if op == 'limit': return q(limit_df, w.df_t, w.fs, start=0.5, stop=3.0)
@@ -188,7 +197,9 @@ def corpus(ctx):
             dict(seed=7, ops=['cf_cycles_trough', 'user_refill', 'cf_cycles_trough', 'extrema', 'zerox']),
             dict(seed=8, ops=['cf2d_dict', 'user_refill', 'cf2d_dict', 'cf3d']),
             dict(seed=9, ops=['extrema_nsec_a', 'extrema_nsec_b', 'cf_nsec_b', 'cf_nsec_a']),
-            dict(seed=10, ops=['cf_nsec_a', 'cf_nsec_b', 'cf_ncyc5', 'cf_cycles'])]
+            dict(seed=10, ops=['cf_nsec_a', 'cf_nsec_b', 'cf_ncyc5', 'cf_cycles']),
+            dict(seed=11, ops=['shape_ncyc7_default', 'obj_default_fit', 'shape_default', 'group_default_fit']),
+            dict(seed=12, ops=['obj_default_fit', 'shape_ncyc7_default', 'obj_default_fit', 'cf_cycles'])]
 
 def generate(ctx):
     rng = ctx.rng
